@@ -39,6 +39,9 @@ structure S where
   sharedConn : Option Nat := none
   failS : List String := []
   failT : List String := []
+  failN : List String := []      -- extensions whose NotifyConfig fails
+  failR : List String := []      -- extensions whose Ready fails
+  hookFailSeen : Bool := false   -- implementation: some notify/ready event failed
   newEmitted : Bool := false
   implNew : Option String := none
   starts : List (Comp × Bool) := []     -- implementation, reversed; includes inner
@@ -78,6 +81,45 @@ def innerComps (s : S) : List Comp := (groups s).map (·.2.1)
 
 def sysOf (s : S) : Sys := { cfg := s.cfg, exts := s.exts, gorderStart := [], gorderStop := [], eorder := [] }
 
+/-! ### reconstruction of the `topo.Sort` results from the observed log
+
+The model takes the three orders as inputs.  They are rebuilt from what the implementation did — the complete stop
+log, the (possibly truncated) start log — with capabilities / fan-out nodes put back in; the driver then CHECKS that
+the rebuilt orders are topological (`isTopoB`) and runs the model's `Service.Start` / `Service.Shutdown` with them:
+the model's logs must equal the observed logs exactly. -/
+
+def insertBefore (l : List Node) (t : Node) (new : List Node) : List Node :=
+  match l with
+  | [] => new
+  | a :: r => if a == t then new ++ a :: r else a :: insertBefore r t new
+
+def insertAfter (l : List Node) (t : Node) (new : List Node) : List Node :=
+  match l with
+  | [] => new
+  | a :: r => if a == t then a :: new ++ r else a :: insertAfter r t new
+
+/-- `seq`: the component nodes, sources first.  Capabilities node right before the first processor, fan-out node right
+after the last one; for a pipeline without processors both right before its first exporter-side node. -/
+def insertNonComps (cfg : Cfg) (seq : List Node) : List Node :=
+  cfg.pipes.foldl (fun acc p =>
+    match p.procs.head?, p.procs.getLast? with
+    | some f, some l => insertAfter (insertBefore acc (Node.proc p.id f) [Node.cap p.id]) (Node.proc p.id l) [Node.fanout p.id]
+    | _, _ =>
+      let exps := pipeExpNodes cfg p
+      match acc.find? (fun n => exps.contains n) with
+      | some t => insertBefore acc t [Node.cap p.id, Node.fanout p.id]
+      | none => acc ++ [Node.cap p.id, Node.fanout p.id]) seq
+
+def nodeOf : Comp → Option Node
+  | .node n => some n
+  | _ => none
+
+def extOf : Comp → Option Nat
+  | .ext e => some e
+  | _ => none
+
+def evTok (c : Comp × Bool) : String := compTok c.1 ++ (if c.2 then "=ok" else "=fail")
+
 def obsList (head : String) (l : List String) : String :=
   let l := sortStr l
   if l.isEmpty then s!"obs {head} 0" else s!"obs {head} {l.length} " ++ " ".intercalate l
@@ -111,6 +153,8 @@ def handler : Handler S where
       match i.toNat? with
       | some i => ({ s with sharedConn := some i }, [])
       | none => (s, ["obs bad-op"])
+    | ["failnotify", l] => let (s, o) := emitNew s; ({ s with failN := s.failN ++ [l] }, o)
+    | ["failready", l] => let (s, o) := emitNew s; ({ s with failR := s.failR ++ [l] }, o)
     | ["failstart", l] => let (s, o) := emitNew s; ({ s with failS := s.failS ++ [l] }, o)
     | ["failstop", l] => let (s, o) := emitNew s; ({ s with failT := s.failT ++ [l] }, o)
     | ["run"] =>
@@ -124,7 +168,8 @@ def handler : Handler S where
     | ["tr", "ev", kind, label, res] =>
       match parseComp label, (if res = "ok" then some true else if res = "fail" then some false else none) with
       | some c, some ok =>
-        if kind = "start" || kind = "istart" then { s with starts := (c, ok) :: s.starts }
+        if kind = "notify" || kind = "ready" then { s with hookFailSeen := s.hookFailSeen || !ok }
+        else if kind = "start" || kind = "istart" then { s with starts := (c, ok) :: s.starts }
         else if kind = "stop" || kind = "istop" then { s with stops := (c, ok) :: s.stops }
         else { s with bad := some s!"unknown event kind {kind}" }
       | _, _ => { s with bad := some s!"unparsable event {label} {res}" }
@@ -159,7 +204,7 @@ def handler : Handler S where
         clause "stop_ext_last" (stopsExtLast sys spc) "C10/stop/extension-before-a-pipeline-component",
         clause "stop_dependent_first" (stopsDependentFirst sys spc) "C10/stop/dependency-before-its-dependent",
         clause "failed_start_last" (failedStartIsLast st) "C10/failure/component-started-after-a-failed-start",
-        clause "results" ((o.startOk == allOk stAll) && (o.stopOk == allOk spAll)) "C10/failure/reported-result-differs-from-component-results",
+        clause "results" ((o.startOk == (allOk stAll && !s.hookFailSeen)) && (o.stopOk == allOk spAll)) "C10/failure/reported-result-differs-from-component-results",
         clause "started_all" (startedAll sys o) "C10/start/successful-start-skipped-a-component" ]
     -- components built on sharedcomponent: the inner component against ALL its instances' neighbours
     let sharedProps : List (Option String) :=
@@ -183,25 +228,46 @@ def handler : Handler S where
           clause "shared_stop_after_upstream" (up.all (fun b => beforeB spA (Comp.node b) inner))
             s!"C10/shared/{pre}inner-stopped-before-upstream-of-a-sibling-instance" ])
     let fails := (lifecycle ++ sharedProps).filterMap id
-    -- model's prediction of the order-independent observations
+    -- the model, RUN: orders rebuilt from the log, checked, then Service.Start / Service.Shutdown of Model/C10.lean
+    let stNodes := st.filterMap (fun e => nodeOf e.1)
+    let spNodes := sp.filterMap (fun e => nodeOf e.1)
+    let s0 := spNodes.reverse.filter (fun n => !(isRecvN n)) ++ spNodes.reverse.filter isRecvN
+    let sSeq := stNodes ++ s0.filter (fun n => !(stNodes.contains n))
+    let msys : Sys := { cfg := s.cfg, exts := s.exts, gorderStart := insertNonComps s.cfg sSeq.reverse,
+                        gorderStop := insertNonComps s.cfg spNodes, eorder := (sp.filterMap (fun e => extOf e.1)).reverse }
+    let admissible := isTopoB (nodes s.cfg) (edges s.cfg) msys.gorderStart && isTopoB (nodes s.cfg) (edges s.cfg) msys.gorderStop &&
+      isTopoB (s.exts.map (·.id)) (extEdges s.exts) msys.eorder
+    let mgroups : List Group := (groups s).map (fun g => { inner := g.2.1, insts := g.2.2.map Comp.node })
+    let isInstC (c : Comp) : Bool := mgroups.any (fun g => g.insts.contains c)
+    let planStart := msys.eorder.map Comp.ext ++ startPlan msys.gorderStart
+    let planStop := stopPlan msys.gorderStop
+    -- an injected failure of a shared inner component is reported by the instance whose call reaches it first
+    let carrier (plan : List Comp) (fl : List String) (c : Comp) : Bool :=
+      mgroups.any (fun g => fl.contains (compTok g.inner) && plan.find? (fun x => g.insts.contains x) == some c)
+    let failS (c : Comp) : Bool := s.failS.contains (compTok c) || carrier planStart s.failS c
+    -- (the test wrapper of a shared instance has no failure switch of its own for Shutdown)
+    let failT (c : Comp) : Bool := (s.failT.contains (compTok c) && !(isInstC c)) || carrier planStop s.failT c
+    let failN (e : Nat) : Bool := s.failN.contains (compTok (Comp.ext e))
+    let failR (e : Nat) : Bool := s.failR.contains (compTok (Comp.ext e))
+    let tr := serviceStartH msys failS failN failR
+    let life := lifetime msys failS failT
+    -- without hook failures `Service.Start` is `serviceStart` (= `(lifetime …).starts`)
+    let compStartsGraph := if s.failN.isEmpty && s.failR.isEmpty then life.starts.drop tr.exts.length else tr.graph
+    let initSt : List (Group × Shared) := mgroups.map (fun g => (g, {}))
+    let mStart := tr.exts ++
+      withInner .start mgroups (fun c => s.failS.contains (compTok c)) (fun c => !(s.failS.contains (compTok c))) initSt compStartsGraph
+    let hookToks := fun (pre : String) (l : List (Nat × Bool)) => l.map (fun e => pre ++ evTok (Comp.ext e.1, e.2))
+    let mStartToks := (tr.exts.map evTok) ++ hookToks "notify." tr.notifies ++ ((mStart.drop tr.exts.length).map evTok) ++ hookToks "ready." tr.readies
+    let mStop := withInner .stop mgroups (fun _ => false) (fun c => !(s.failT.contains (compTok c))) initSt life.stops
     let runLines : List String :=
       if !s.ran then [] else
-      let comps := (allComps sys ++ innerComps s).map compTok
-      -- every component exists, so a start fails iff a failure was injected anywhere; every component is shut
-      -- down exactly once, so exactly the injected shutdown failures are reported — plus, for a failing shared
-      -- inner Shutdown, the instance whose Shutdown ran it (stopOnce: the first instance stopped; from the log)
-      let startRes := if s.failS.any (fun l => comps.contains l) then "fail" else "ok"
-      let allInsts : List Comp := (groups s).flatMap (fun g => g.2.2.map Comp.node)
-      let carrier : List String :=
-        (groups s).flatMap (fun (_, inner, insts) =>
-          if s.failT.contains (compTok inner) then
-            (((spAll.map (·.1)).filter (fun c => insts.any (fun n => Comp.node n == c))).take 1).map compTok
-          else [])
-      -- (the harness's outer wrapper of a shared instance has no failure switch of its own for Shutdown)
-      let instToks := allInsts.map compTok
-      let stopErrs := C09.dedup ((s.failT.filter (fun l => comps.contains l && !(instToks.contains l))) ++ carrier)
-      [s!"obs start {startRes}", obsList "stops" comps, obsList "stoperr" stopErrs,
-        if stopErrs.isEmpty then "obs shutdown ok" else "obs shutdown err"]
+      [s!"obs start {if tr.ok then "ok" else "fail"}", obsList "stops" (mStop.map (fun e => compTok e.1)),
+       obsList "stoperr" ((mStop.filter (fun e => !e.2)).map (fun e => compTok e.1)),
+       if mStop.all (·.2) then "obs shutdown ok" else "obs shutdown err",
+       s!"obs startlog {mStartToks.length} " ++ " ".intercalate mStartToks,
+       s!"obs stoplog {mStop.length} " ++ " ".intercalate (mStop.map evTok)]
+    let fails := fails ++ (if s.ran && !admissible then
+      ["prop orders_admissible=FAIL sig=C10/model/order-rebuilt-from-the-log-is-not-topological"] else [])
     match s.bad with
     | some b => newLines ++ runLines ++ [s!"prop protocol=FAIL sig=C10/harness/unparsable {b}"]
     | none => newLines ++ runLines ++ (if fails.isEmpty then ["prop lifecycle=ok"] else fails)
